@@ -290,3 +290,26 @@ func (p *Prog) originTerms(v ssa.Value, depth int) []*Term {
 	}
 	return out
 }
+
+// resultTerms: the terms a value stands for when it is the single result of a call to a small module helper: the
+// helper's returned terms, translated to the call's arguments (one per return). Anything else: the value's own term.
+func resultTerms(v ssa.Value) []*Term {
+	call, ok := stripConv(v).(*ssa.Call)
+	if !ok {
+		return []*Term{termOf(v)}
+	}
+	cal := call.Common().StaticCallee()
+	if cal == nil || len(cal.Blocks) == 0 || !hasModPrefix(cal) || cal.Signature.Results().Len() != 1 {
+		return []*Term{termOf(v)}
+	}
+	var out []*Term
+	for _, b := range cal.Blocks {
+		if ret, isRet := b.Instrs[len(b.Instrs)-1].(*ssa.Return); isRet {
+			out = append(out, termOf(unspill(ret, 0)).subst(callActuals(call)))
+		}
+	}
+	if len(out) == 0 {
+		return []*Term{termOf(v)}
+	}
+	return out
+}
